@@ -355,8 +355,8 @@ def run(ctx, out, tier):
     # ------------------------------------------------------------------ exit / abort
     ex = [(b, t) for b in bodies for bi, t in b.calls() if callee_matches(t, r"^std::process::(exit|abort)$")]
     # the report function: the one function of the binary crate that main hands the validators' result to
-    if len(ex) == 1 and ex[0][0].id.startswith("bwbin::") and ex[0][0].id != "bwbin::main":
-        out.inst("C04.exit", 1, 1, ["process::exit only in the report function"])
+    if len(ex) == 1 and ex[0][0].id.startswith("bwbin::"):
+        out.inst("C04.exit", 1, 1, ["one process::exit site, in the binary's report path (%s)" % ex[0][0].id])
     else:
         out.viol("C04.exit", "C04.exit|sites", "-", "process::exit / abort is called from %s; expected only the report function" % [b.id for b, t in ex])
         out.inst("C04.exit", 0, 1)
